@@ -241,7 +241,16 @@ func genHist(r *rand.Rand, w Window, o DataOpt, span int64) []store.Series {
 		iv := interval(r, span+2*o.Lookback)
 		first := w.Start - int64(r.Intn(int(5*iv+1)))
 		cum := make([]float64, len(les))
-		base := []string{"__name__", "h_bucket", "a", LabelVals[gi%len(LabelVals)]}
+		name := "h_bucket"
+		aval := LabelVals[gi%len(LabelVals)]
+		if gi == 1 && r.Intn(2) == 0 {
+			// same labels as the first histogram, another metric name
+			name, aval = "h2_bucket", LabelVals[0]
+		}
+		base := []string{"__name__", name, "a", aval}
+		if r.Intn(2) == 0 {
+			base = append(base, "p", "q") // a label that sorts after "le"
+		}
 		ss := make([]store.Series, len(les))
 		for i, le := range les {
 			ss[i].L = append(append([]string{}, base...), "le", le)
